@@ -293,6 +293,8 @@ def run(prog: Program) -> Results:
                         f"{top.key}: `{norm(site)[:60]}` marks a binding as attrpath-derived from the shape of a Python value: the set "
                         f"renderer flattens such bindings into their leaves, so a value with no leaves (an empty dict) is rendered as "
                         f"nothing and the binding disappears")
+    from sa.rules.c14 import mirrors_follow_values
+    mirrors_follow_values(prog, res, "R-C13-9")
     from sa.rules.c12 import one_bare_name_language
     one_bare_name_language(prog, res, "R-C13-7")
     res.assumptions = ["Nix float grammar: a float literal needs a dot; list elements admit only select-level expressions"]
